@@ -10,7 +10,12 @@ import (
 	jsoniter "github.com/json-iterator/go"
 )
 
-var json = jsoniter.ConfigFastest
+// Like jsoniter.ConfigFastest, but without MarshalFloatWith6Digits: job variables can be arbitrary JSON numbers and
+// must not lose precision when persisted (e.g. 1e-9 would be stored as 0)
+var json = jsoniter.Config{
+	EscapeHTML:                    false,
+	ObjectFieldMustBeSimpleString: true,
+}.Froze()
 
 type PersistedJob struct {
 	ID       uuid.UUID
